@@ -2,7 +2,7 @@
 
 One run: 2-3 tasks are drawn (page renders of generated programs - own or one shared Template object -, a render
 that fails at a drawn callback, cached_template() through a small template cache, first access of the assets of
-fresh classes, a document-mode render_dependencies).  A grandchild forked from the pristine image runs every task
+fresh classes, a document-mode render_dependencies, pages and components written with {% extends %} / {% block %}).  A grandchild forked from the pristine image runs every task
 alone (solo results, step counts = horizon).  The child then runs the same tasks under the baton scheduler with a
 drawn, pre-materialised schedule.  Oracle: each thread's result equals its solo result; no foreign exception;
 after join the per-render registries, the template LRU and the caches are as the solo runs leave them.
@@ -24,7 +24,46 @@ FOCI_BY_STRATUM = {
     "lru": ["lru"],
     "media": ["media", "all"],
     "mixed": ["provide", "compcache", "lru", "media", "misc", "classattr", "all"],
+    "extends": ["tplflag", "tplflag", "tplflag", "misc", "compcache", "classattr", "all"],
 }
+
+# ---- stratum "extends": components and pages written with Django's template inheritance --------------------------
+# No reference model is needed (or used) here: the oracle of C07 is differential (scheduled result = serial result).
+# The library keeps a per-render flag (`_djc_is_component_nested`) on the component's compiled Template object, which
+# is shared between threads through the template cache; its value depends on whether the component is rendered inside
+# a {% block %} of an inheriting page or not - so pages of both kinds over the same classes are raced.
+X_TEMPLATES = {
+    "xb0.html": "<main>{% block a %}A0{% endblock %}|{% block b %}B0{% endblock %}</main>",
+    "xb1.html": '{% extends "xb0.html" %}{% block a %}A1[{{ block.super }}]{% endblock %}',
+}
+X_COMPONENTS = {
+    "XC": '{% extends "xb0.html" %}{% block a %}{{ v }}-{% slot "s" default %}SD{% endslot %}{% endblock %}',
+    "XD": '{% extends "xb1.html" %}{% block b %}{{ v }}+{% slot "s" default %}SD{% endslot %}{% endblock %}',
+    "XP": 'p:{{ v }}[{% slot "s" default / %}]',
+}
+X_WRAPPERS = [
+    "%s",
+    '{%% extends "xb0.html" %%}{%% block a %%}%s{%% endblock %%}',
+    '{%% extends "xb1.html" %%}{%% block b %%}%s{%% endblock %%}',
+    '{%% extends "xb0.html" %%}{%% block b %%}%s{%% endblock %%}',
+]
+
+
+def draw_xpage(ch):
+    names = sorted(X_COMPONENTS)
+
+    def comp(depth):
+        name = names[ch.draw(len(names), "xcomp")]
+        v = ["pa", "pb"][ch.draw(2, "xv")]
+        fk = ch.weighted([3, 2, 3 if depth < 2 else 0], "xfill")
+        if fk == 0:
+            return '{%% component "%s" v=%s / %%}' % (name, v)
+        body = "F" if fk == 1 else comp(depth + 1)
+        return '{%% component "%s" v=%s %%}{%% fill "s" %%}%s{%% endfill %%}{%% endcomponent %%}' % (name, v, body)
+
+    body = "".join(comp(0) for _ in range(1 + ch.draw(2, "xitems")))
+    return X_WRAPPERS[ch.weighted([3, 2, 2, 2], "xwrap")] % body
+
 ID_RE = re.compile(r"\b[0-9A-Za-z]{6}\b")
 
 
@@ -34,7 +73,8 @@ def default_params(tier):
     p["max_comps"] = 3
     p["max_tasks"] = 3
     p["filled_weight"] = 4   # is_filled echoes make per-instance state that leaks between threads observable
-    p["strata"] = ["clean", "provide", "lru", "media", "mixed"]
+    # (drawn uniformly from this list: the five original strata twice each, template inheritance once)
+    p["strata"] = ["clean", "provide", "lru", "media", "mixed"] * 2 + ["extends"]
     return p
 
 
@@ -83,6 +123,12 @@ def draw_tasks(ch, params):
             tasks.append(t)
         if stratum == "mixed" and ch.chance(1, 2, "deps_task"):
             tasks[0] = {"kind": "render_deps", "prog": new_prog(assets=True), "shared_template": False}
+    elif stratum == "extends":
+        shared = ch.chance(1, 4, "shared_template")
+        first = draw_xpage(ch)
+        for k in range(n):
+            tasks.append({"kind": "xrender", "page": first if (shared or k == 0) else draw_xpage(ch), "xshared": shared})
+        return {"stratum": stratum, "mode": mode, "tasks": tasks, "progs": progs}
     elif stratum == "lru":
         size = [1, 2, 3][ch.draw(3, "lru_size")]
         n_src = 2 + ch.draw(3, "n_sources")
@@ -142,8 +188,27 @@ class Setup:
                 self.shared_templates[t["prog"]] = Template(emit.page_source(spec["progs"][t["prog"]]))
         self.media_classes = None
         self.tmpdir = None
+        if spec["stratum"] == "extends":
+            self.build_extends(spec)
         if spec["stratum"] == "media":
             self.media_classes = self.build_hierarchy(spec["hier"])
+
+    def build_extends(self, spec):
+        from django.template import Template, engines
+
+        from django_components import Component, registry
+
+        engines["django"].engine.template_loaders[0].templates_dict.update(X_TEMPLATES)
+        for name, src in X_COMPONENTS.items():
+            def gcd(self, v=None, _name=name):
+                world.fault_point("gcd:" + _name)
+                return {"v": v}
+
+            registry.register(name, type(name, (Component,), {"__module__": "sim.generated", "template": src,
+                                                               "get_context_data": gcd}))
+        self.xshared = None
+        if spec["tasks"][0].get("xshared"):
+            self.xshared = Template(spec["tasks"][0]["page"])
 
     def build_hierarchy(self, h):
         from django_components import Component
@@ -219,6 +284,13 @@ class Setup:
                 if tpl is None:
                     tpl = Template(emit.page_source(prog))
                 return R.normalise(str(tpl.render(Context(dict(prog["ctx"])))))
+            return wrap(fn)
+        if kind == "xrender":
+            from django.template import Context, Template
+
+            def fn():
+                tpl = self.xshared if t.get("xshared") else Template(t["page"])
+                return R.normalise(str(tpl.render(Context({"pa": "PA", "pb": "PB"}))))
             return wrap(fn)
         if kind == "render_deps":
             from django.template import Context, Template
